@@ -56,7 +56,7 @@ REGISTRY = {
     },
     "C08": {
         "engine": "engine_deser",
-        "theorems": [(A + "NoCopyThm", "Api.C08_no_copy"), (A + "NoCopyThm", "Api.noCopy_independent"),
+        "theorems": [(A + "RawDcThm", "Api.raw_dataclass_conditions"), (A + "NoCopyThm", "Api.C08_no_copy"), (A + "NoCopyThm", "Api.noCopy_independent"),
                      (A + "TablesThm", "Api.Tables.C08_check_only_table"), (A + "TablesThm", "Api.Tables.C08_fast_path_conditions"),
                      (A + "FieldLoopSrcThm", "Api.fieldLoopSimple_matches_source"), (A + "FieldLoopSrcThm", "Api.fieldLoopSimple_covered")],
         "partial": "independence of no_copy proved on Ty.scope (TypedDict outside; any key type since the repair of row 30); constructor override, precomputed method, "
